@@ -106,6 +106,7 @@ type ScriptSource struct {
 	OnDeliver func(i int)     // called just before message i is handed over
 	OnEOS     func()          // called just before Run returns
 	Stall     []time.Duration // optional simulated latency before message i (fake clock)
+	GateEvery int             // with a controller: park only before every GateEvery-th message (0/1 = every message)
 }
 
 var errAborted = fmt.Errorf("sim: run aborted")
@@ -113,7 +114,7 @@ var errAborted = fmt.Errorf("sim: run aborted")
 func (s *ScriptSource) Run(ctx execution.ExecutionContext, produce execution.ProduceFn, metaSend execution.MetaSendFn) error {
 	pctx := execution.ProduceFromExecutionContext(ctx)
 	for i, m := range s.Msgs {
-		if s.Ctl != nil {
+		if s.Ctl != nil && (s.GateEvery <= 1 || i%s.GateEvery == 0) {
 			if !s.Ctl.Park(fmt.Sprintf("%s:%03d", s.Name, i)) {
 				return errAborted
 			}
